@@ -14,6 +14,18 @@ namespace VelaVerif.Constraints
 open VelaVerif.Gen.Constraints
 set_option linter.unusedVariables false
 
+open Lean in
+/-- `n!"abc"`: the code points of the literal as a `List Nat` literal, built at elaboration time.
+    Identifiers and texts are `Name = List Nat` everywhere: `String` operations (`toList`, `==`) take
+    milliseconds per call in the kernel, which made every `decide` over the tables take minutes. -/
+macro:max "n!" s:str : term => do
+  let cs := s.getString.toList.map (·.toNat)
+  let lits := cs.toArray.map fun c => Syntax.mkNumLit (toString c)
+  `(([$lits,*] : List Nat))
+
+def ofName (n : Name) : String := String.ofList (n.map Char.ofNat)
+def toName (s : String) : Name := s.toList.map Char.toNat
+
 /-- constant data of a tensor as far as the constraints look at it -/
 inductive Vals where
   | none                     -- `tens.values is None`
@@ -37,7 +49,7 @@ deriving Repr, DecidableEq, Inhabited
 structure Tens where
   /-- `none` = a `None` entry of the Python list -/
   shape : List (Option Int)
-  dtype : String
+  dtype : Name
   bits : Nat
   /-- `BaseType` flag value of `dtype.type` (Signed 1, Unsigned 2, Int 8, Float 16, Bool 64 …) -/
   tflags : Nat
@@ -52,17 +64,17 @@ inductive AttrV where
   | int (i : Int)
   | bool (b : Bool)
   | ints (l : List Int)
-  | str (s : String)
+  | str (s : Name)
   /-- a Python float (binary64 bit pattern) -/
   | flt (bits : Nat)
   | none
 deriving Repr, DecidableEq, Inhabited
 
 structure OpDesc where
-  type : String
+  type : Name
   /-- `op.activation.op_type.name`; `none` = no fused activation -/
-  act : Option String
-  attrs : List (String × AttrV)
+  act : Option Name
+  attrs : List (Name × AttrV)
   inputs : List (Option Tens)
   outputs : List (Option Tens)
 deriving Repr, DecidableEq, Inhabited
@@ -148,7 +160,7 @@ def ifm2 (d : OpDesc) : Option Tens := (opRow d).bind fun r => getInput d r.ifms
 def weights (d : OpDesc) : Option Tens := (opRow d).bind fun r => getInput d r.weights 0
 def bias (d : OpDesc) : Option Tens := (opRow d).bind fun r => getInput d r.biases 0
 def ofm (d : OpDesc) : Option Tens := match d.outputs with | [] => none | o :: _ => o
-def blockType (d : OpDesc) : String := ((opRow d).map (·.block)).getD "Default"
+def blockType (d : OpDesc) : Name := ((opRow d).map (·.block)).getD n!"Default"
 
 /-- `op.inputs[i]`: IndexError → exc; a `None` entry → `.ok none` -/
 def inputAt (d : OpDesc) (i : Nat) : Except String (Option Tens) :=
@@ -159,21 +171,21 @@ def inputAt! (d : OpDesc) (i : Nat) : Except String Tens := do
 
 def need (o : Option Tens) : Except String Tens := match o with | some t => .ok t | none => exc
 
-def attr? (d : OpDesc) (k : String) : Option AttrV := (d.attrs.find? (·.1 == k)).map (·.2)
-def attrInt (d : OpDesc) (k : String) (dflt : Int) : Except String Int :=
+def attr? (d : OpDesc) (k : Name) : Option AttrV := (d.attrs.find? (·.1 == k)).map (·.2)
+def attrInt (d : OpDesc) (k : Name) (dflt : Int) : Except String Int :=
   match attr? d k with
   | none => .ok dflt
   | some (.int i) => .ok i
   | some (.bool b) => .ok (if b then 1 else 0)
   | some _ => .error "unmodelled:attr-type"
 /-- `op.attrs[k]` (KeyError when absent) -/
-def attrInt! (d : OpDesc) (k : String) : Except String Int :=
+def attrInt! (d : OpDesc) (k : Name) : Except String Int :=
   match attr? d k with
   | some (.int i) => .ok i
   | some (.bool b) => .ok (if b then 1 else 0)
   | none => exc
   | some _ => .error "unmodelled:attr-type"
-def attrBool (d : OpDesc) (k : String) (dflt : Bool) : Except String Bool :=
+def attrBool (d : OpDesc) (k : Name) (dflt : Bool) : Except String Bool :=
   match attr? d k with
   | none => .ok dflt
   | some (.bool b) => .ok b
@@ -182,35 +194,35 @@ def attrBool (d : OpDesc) (k : String) (dflt : Bool) : Except String Bool :=
 
 /-- `get_kernel_stride` → (w, h) -/
 def kernelStride (d : OpDesc) : Except String (Int × Int) :=
-  match attr? d "strides" with
+  match attr? d n!"strides" with
   | some (.ints [_, h, w, _]) => .ok (w, h)
   | some (.ints _) => exc
   | some _ => .error "unmodelled:attr-type"
-  | none => do .ok (← attrInt d "stride_w" 1, ← attrInt d "stride_h" 1)
+  | none => do .ok (← attrInt d n!"stride_w" 1, ← attrInt d n!"stride_h" 1)
 
 def kernelDilation (d : OpDesc) : Except String (Int × Int) :=
-  match attr? d "dilation" with
+  match attr? d n!"dilation" with
   | some (.ints [_, h, w, _]) => .ok (w, h)
   | some (.ints _) => exc
   | some _ => .error "unmodelled:attr-type"
-  | none => do .ok (← attrInt d "dilation_w_factor" 1, ← attrInt d "dilation_h_factor" 1)
+  | none => do .ok (← attrInt d n!"dilation_w_factor" 1, ← attrInt d n!"dilation_h_factor" 1)
 
 /-- `get_kernel_size` → (w, h) -/
 def kernelSize (d : OpDesc) : Except String (Int × Int) := do
   let bt := blockType d
   match weights d with
   | some w =>
-    if bt == "ConvolutionDepthWise" || bt == "ConvolutionMxN" then
+    if bt == n!"ConvolutionDepthWise" || bt == n!"ConvolutionMxN" then
       let s := fullShape4 (← w.dims)
       return (← pyIdx s (-3), ← pyIdx s (-4))
     else kernelSizeAttrs bt
   | none => kernelSizeAttrs bt
 where
-  kernelSizeAttrs (bt : String) : Except String (Int × Int) :=
-    match (if bt == "Pooling" || bt == "ReduceSum" then attr? d "ksize" else none) with
+  kernelSizeAttrs (bt : Name) : Except String (Int × Int) :=
+    match (if bt == n!"Pooling" || bt == n!"ReduceSum" then attr? d n!"ksize" else none) with
     | some (.ints (_ :: h :: w :: _)) => .ok (w, h)
     | some _ => exc
-    | none => do .ok (← attrInt d "filter_width" 1, ← attrInt d "filter_height" 1)
+    | none => do .ok (← attrInt d n!"filter_width" 1, ← attrInt d n!"filter_height" 1)
 
 structure Kern where
   w : Int
@@ -230,8 +242,8 @@ def kernel (d : OpDesc) : Except String Kern := do
 def Kern.areaW (k : Kern) : Int := (k.w - 1) * k.dx + 1
 def Kern.areaH (k : Kern) : Int := (k.h - 1) * k.dy + 1
 
-def paddingIs (d : OpDesc) (p : String) : Except String Bool :=
-  match attr? d "padding" with
+def paddingIs (d : OpDesc) (p : Name) : Except String Bool :=
+  match attr? d n!"padding" with
   | some (.str s) => .ok (s == p)
   | none => exc
   | some _ => .error "unmodelled:attr-type"
@@ -243,9 +255,9 @@ def mainTensors (d : OpDesc) : List Tens :=
 def iiwoTensors (d : OpDesc) : List Tens := [ifm d, ifm2 d, weights d, ofm d].filterMap id
 def inOutTensors (d : OpDesc) : List Tens := (d.inputs ++ d.outputs).filterMap id
 
-def opSet (sets : List (String × List String)) (name : String) : List String :=
+def opSet (sets : List (Name × List Name)) (name : Name) : List Name :=
   ((sets.find? (·.1 == name)).map (·.2)).getD []
-def dtypeSet (name : String) : List String := opSet supDtypeSets name
+def dtypeSet (name : Name) : List Name := opSet supDtypeSets name
 
 def Quant.isPerAxis (q : Quant) : Bool :=
   (match q.scales with | some l => decide (l.length > 1) | none => false) ||
@@ -291,15 +303,15 @@ structure Params where
   meanUint8 : Int
   meanInt16 : Int
   /-- `str(DataType)` names, sorted -/
-  opDtypes : List String
-  fafDtypes : List String
-  biasDtypes : List String
-  padDtypes : List String
+  opDtypes : List Name
+  fafDtypes : List Name
+  biasDtypes : List Name
+  padDtypes : List Name
   /-- internal operator type names -/
-  int32Ops : List String
-  perAxisOps : List String
-  fafOps : List String
-  shapelessOps : List String
+  int32Ops : List Name
+  perAxisOps : List Name
+  fafOps : List Name
+  shapelessOps : List Name
   -- literals of the function bodies
   /-- `constraint_depthwise_conv_stride`: `stride_min, stride_max = 1, 3` -/
   dwStride : Int × Int
@@ -329,7 +341,7 @@ def tens_dtype (P : Params) (d : OpDesc) : R :=
 
 def tens_int32_ops (P : Params) (d : OpDesc) : R :=
   .ok ((mainTensors d).all fun t =>
-    !(t.dtype == "int32" && !P.int32Ops.contains d.type))
+    !(t.dtype == n!"int32" && !P.int32Ops.contains d.type))
 
 def tens_dimension (P : Params) (d : OpDesc) : R := do
   let ts ← (mainTensors d).mapM (·.dims)
@@ -383,10 +395,13 @@ def weights_limit (P : Params) (d : OpDesc) : R := do
   if oc == 0 ∨ vs.isEmpty then exc else
   let q ← match w.quant with | some q => pure q | none => exc
   let zps ← match q.zps with | some z => pure z | none => exc
-  if zps.length != 1 ∧ zps.length != oc then exc else
-  let sums : List Int := (List.range oc).map fun c =>
+  -- NumPy broadcasting of the zero point vector against the last axis
+  if zps.length != 1 ∧ zps.length != oc ∧ oc != 1 then exc else
+  if zps.isEmpty then exc else
+  let chans := max oc zps.length
+  let sums : List Int := (List.range chans).map fun c =>
     let z := if zps.length == 1 then zps.headD 0 else zps.getD c 0
-    (vs.zipIdx.foldl (fun acc (v, i) => if i % oc == c then acc + (v - z).natAbs else acc) 0 : Int)
+    (vs.zipIdx.foldl (fun acc (v, i) => if i % oc == c % oc then acc + (v - z).natAbs else acc) 0 : Int)
   return decide (sums.foldl max 0 ≤ P.weightsLimit)
 
 def bias_shape (P : Params) (d : OpDesc) : R :=
@@ -401,13 +416,13 @@ def binLen (v : Int) : Nat := if v < 0 then Nat.log2 v.natAbs + 2 else if v == 0
 def bias_40bit (P : Params) (d : OpDesc) : R :=
   match bias d with
   | some b =>
-    if b.dtype == "int64" && b.hasValues then do
+    if b.dtype == n!"int64" && b.hasValues then do
       return (← b.intVals).all fun v => decide (binLen v ≤ P.biasBits)
     else .ok true
   | none => .ok true
 
 def depth_multiplier (P : Params) (d : OpDesc) : R := do
-  let m ← attrInt d "depth_multiplier" 1
+  let m ← attrInt d n!"depth_multiplier" 1
   if m > 1 then
     let ic ← pyIdx (← (← need (ifm d)).dims) 3
     let oc ← pyIdx (← (← need (ofm d)).dims) 3
@@ -438,9 +453,9 @@ def stride_width_no_upper_limit (P : Params) (d : OpDesc) : R := do
 def stride_range_no_padding (P : Params) (d : OpDesc) : R := do
   let (w, _) ← kernelStride d
   let v ← stride_width_no_upper_limit P d
-  let padOk := match attr? d "padding" with
+  let padOk := match attr? d n!"padding" with
     | none => true
-    | some (.str s) => s == "VALID"
+    | some (.str s) => s == n!"VALID"
     | some .none => true
     | some _ => false
   return v && (padOk || decide (w ≤ P.avgStrideNoPad))
@@ -455,7 +470,7 @@ def tconv_stride (P : Params) (d : OpDesc) : R := do
   return (k.sx == 1 && k.sy == 1) || (k.sx == 2 && k.sy == 2) || (k.sx == 2 && k.sy == 1 && ih == 1 && k.h == 1)
 
 def tconv_same (P : Params) (d : OpDesc) : R := do
-  if ← paddingIs d "SAME" then
+  if ← paddingIs d n!"SAME" then
     let k ← kernel d
     let i ← (← need (ifm d)).dims
     let o ← (← need (ofm d)).dims
@@ -463,7 +478,7 @@ def tconv_same (P : Params) (d : OpDesc) : R := do
   else return true
 
 def tconv_valid (P : Params) (d : OpDesc) : R := do
-  if ← paddingIs d "VALID" then
+  if ← paddingIs d n!"VALID" then
     let k ← kernel d
     let i ← (← need (ifm d)).dims
     let o ← (← need (ofm d)).dims
@@ -472,7 +487,7 @@ def tconv_valid (P : Params) (d : OpDesc) : R := do
   else return true
 
 def filter_range (P : Params) (d : OpDesc) : R := do
-  if ← paddingIs d "SAME" then
+  if ← paddingIs d n!"SAME" then
     let (sw, _) ← kernelStride d
     let k ← kernel d
     return (inRange P.filter k.w || sw == k.w) && inRange P.filter k.h
@@ -483,9 +498,9 @@ def filter_product_range (P : Params) (d : OpDesc) : R := do
   let k ← kernel d
   return inRange P.filterProd (k.w * k.h)
 def filter_height_range_valid_pad (P : Params) (d : OpDesc) : R := do
-  if ← paddingIs d "VALID" then filter_height_range P d else return true
+  if ← paddingIs d n!"VALID" then filter_height_range P d else return true
 def filter_product_range_valid_pad (P : Params) (d : OpDesc) : R := do
-  if ← paddingIs d "VALID" then filter_product_range P d else return true
+  if ← paddingIs d n!"VALID" then filter_product_range P d else return true
 
 /-- float quotients compared with 2.0/4.0/8.0: exact for the integer sizes concerned -/
 def resize (P : Params) (d : OpDesc) : R := do
@@ -493,7 +508,7 @@ def resize (P : Params) (d : OpDesc) : R := do
   let o ← (← need (ofm d)).dims
   let ih ← pyIdx i 1; let iw ← pyIdx i 2
   let oh ← pyIdx o 1; let ow ← pyIdx o 2
-  let ac ← attrBool d "align_corners" false
+  let ac ← attrBool d n!"align_corners" false
   if i.length != 4 then return false
   if (ih == 1 && iw == 1) || i == o then return true
   let (nh, dh, nw, dw) := if ac then (oh - 1, ih - 1, ow - 1, iw - 1) else (oh, ih, ow, iw)
@@ -517,10 +532,10 @@ def resize_size (P : Params) (d : OpDesc) : R := do
   | _ => return false
 
 def resize_attrs (P : Params) (d : OpDesc) : R := do
-  return !((← attrBool d "align_corners" false) && (← attrBool d "half_pixel_centers" false))
+  return !((← attrBool d n!"align_corners" false) && (← attrBool d n!"half_pixel_centers" false))
 
 def resizebi_half_pixel_centers_dims (P : Params) (d : OpDesc) : R := do
-  if !(← attrBool d "half_pixel_centers" false) then return true
+  if !(← attrBool d n!"half_pixel_centers" false) then return true
   let i ← (← need (ifm d)).dims
   if i.length ≥ 3 then
     let o ← (← need (ofm d)).dims
@@ -557,15 +572,15 @@ def stridedslice_stride_values (P : Params) (d : OpDesc) : R := do
   return (← s.intVals).all (· == 1)
 
 def stridedslice_offset_false (P : Params) (d : OpDesc) : R :=
-  match attr? d "offset" with
+  match attr? d n!"offset" with
   | none => .ok true
   | some (.bool b) => .ok (!b)
   | some _ => .ok false
 
 def inputs_int32 (P : Params) (d : OpDesc) : R := do
-  return (← need (ifm d)).dtype == "int32" && (← need (ifm2 d)).dtype == "int32"
-def output_int32 (P : Params) (d : OpDesc) : R := do return (← need (ofm d)).dtype == "int32"
-def rsqrt_input_int8 (P : Params) (d : OpDesc) : R := do return (← need (ifm d)).dtype == "int8"
+  return (← need (ifm d)).dtype == n!"int32" && (← need (ifm2 d)).dtype == n!"int32"
+def output_int32 (P : Params) (d : OpDesc) : R := do return (← need (ofm d)).dtype == n!"int32"
+def rsqrt_input_int8 (P : Params) (d : OpDesc) : R := do return (← need (ifm d)).dtype == n!"int8"
 
 def matching_quantization_parameters (P : Params) (d : OpDesc) : R := do
   let o ← need (ofm d)
@@ -594,8 +609,8 @@ def mean_height_width_product (P : Params) (d : OpDesc) : R := do
   let axes ← meanAxes d
   let p := prodInt (← axes.mapM (pyIdx shape))
   let i ← need (ifm d)
-  let mx := if i.dtype == "int16" then P.meanInt16
-            else if i.dtype == "uint8" then P.meanUint8 else P.meanInt8
+  let mx := if i.dtype == n!"int16" then P.meanInt16
+            else if i.dtype == n!"uint8" then P.meanUint8 else P.meanInt8
   return decide (p ≤ mx)
 
 def mean_width (P : Params) (d : OpDesc) : R := do
@@ -633,6 +648,29 @@ def slice_inputs_const (P : Params) (d : OpDesc) : R :=
   | [_, some b, some s] => .ok (b.hasValues && s.hasValues)
   | _ => exc
 
+def transpose (P : Params) (d : OpDesc) : R := do
+  let shape ← (← inputAt! d 0).dims
+  let perm ← inputAt! d 1
+  let ps ← perm.dims
+  -- `perm.values[i]` is only evaluated on the paths below (TypeError when the values are None)
+  let pv (i : Int) : Except String Int := do pyIdx (← perm.intVals) i
+  if shape.length == 2 then return true
+  if ps == [3] then
+    if (← pv 0) == 1 && (← pv 1) == 0 then return true
+    if (← pyIdx shape 0) == 1 then
+      if (← pv 1) == 2 && (← pv 2) == 1 then return true
+    if (← pyIdx shape 1) == 1 then
+      if (← pv 0) == 2 && (← pv 2) == 0 then return true
+    return false
+  if ps == [4] then
+    if (← pv 0) == 0 && (← pv 1) == 2 && (← pv 2) == 1 then return true
+    if (← pyIdx shape 1) == 1 then
+      if (← pv 0) == 0 && (← pv 2) == 3 && (← pv 3) == 2 then return true
+    if (← pyIdx shape 2) == 1 then
+      if (← pv 0) == 0 && (← pv 1) == 3 && (← pv 3) == 1 then return true
+    return false
+  return false
+
 end Sup
 
 -- ------------------------------------------------------------------------------------------------
@@ -641,7 +679,7 @@ end Sup
 namespace Sem
 
 def attributes_specified (P : Params) (d : OpDesc) : R :=
-  match attr? d "attribute_read_error" with
+  match attr? d n!"attribute_read_error" with
   | none => .ok true
   | some (.ints l) => .ok l.isEmpty          -- the descriptor carries the list length as `[n]`-free list of n zeros
   | some _ => .error "unmodelled:attr-type"
@@ -717,7 +755,7 @@ def matching_in_out_types (P : Params) (d : OpDesc) : R := do
   return (← need (ifm d)).dtype == (← need (ofm d)).dtype
 
 def beta_value_range (P : Params) (d : OpDesc) : R :=
-  match attr? d "beta" with
+  match attr? d n!"beta" with
   | none => .ok true
   | some (.flt b) =>
     -- beta >= 0 on a binary64: NaN is not, -0.0 is
@@ -746,16 +784,16 @@ def split_axis (P : Params) (d : OpDesc) : R := do
 def split_num_splits (P : Params) (d : OpDesc) : R := do
   let (a, _) ← splitAxis d
   let x ← inputAt! d 1
-  let n ← match attr? d "num_splits" with | some (.int n) => pure n | _ => exc
+  let n ← match attr? d n!"num_splits" with | some (.int n) => pure n | _ => exc
   let s ← pyIdx (← x.dims) a
   if n == 0 then exc else return Int.fmod s n == 0
 
 def axis_exists (P : Params) (d : OpDesc) : R :=
-  match attr? d "axis" with | none => .ok false | some .none => .ok false | some _ => .ok true
+  match attr? d n!"axis" with | none => .ok false | some .none => .ok false | some _ => .ok true
 
 def concatAxis (d : OpDesc) : Except String (Int × Int) := do
   let dims : Int := (← need (ofm d)).rank
-  let a ← attrInt! d "axis"
+  let a ← attrInt! d n!"axis"
   return ((if a < 0 then a + dims else a), dims)
 
 def axis_valid (P : Params) (d : OpDesc) : R := do
@@ -807,9 +845,9 @@ def stridedslice_inputs_const (P : Params) (d : OpDesc) : R :=
   | [_, some b, some e, some s] => .ok (b.hasValues && e.hasValues && s.hasValues)
   | _ => exc
 
-def ellipsis_mask (P : Params) (d : OpDesc) : R := do return (← attrInt! d "ellipsis_mask") == 0
+def ellipsis_mask (P : Params) (d : OpDesc) : R := do return (← attrInt! d n!"ellipsis_mask") == 0
 def axis_masks (P : Params) (d : OpDesc) : R := do
-  return (← attrInt! d "new_axis_mask") == 0 || (← attrInt! d "shrink_axis_mask") == 0
+  return (← attrInt! d n!"new_axis_mask") == 0 || (← attrInt! d n!"shrink_axis_mask") == 0
 
 def bitSet (mask : Int) (i : Nat) : Bool := (mask.toNat / 2 ^ i) % 2 == 1
 
@@ -825,9 +863,9 @@ def slice_ranges (P : Params) (d : OpDesc) : R := do
   match d.inputs with
   | [some x, some b, some e, _] =>
     let shape ← x.dims
-    let shrink ← attrInt! d "shrink_axis_mask"
-    let bm ← attrInt! d "begin_mask"
-    let em ← attrInt! d "end_mask"
+    let shrink ← attrInt! d n!"shrink_axis_mask"
+    let bm ← attrInt! d n!"begin_mask"
+    let em ← attrInt! d n!"end_mask"
     if shrink < 0 ∨ bm < 0 ∨ em < 0 then .error "unmodelled:negative-mask" else
     let ob ← sliceOffsets shape (← b.intVals) bm true
     let oe ← sliceOffsets shape (← e.intVals) em false
@@ -842,13 +880,13 @@ def matching_signed (P : Params) (d : OpDesc) : R := do
   return if i.isSigned then o.isSigned else true
 def unsigned_valid (P : Params) (d : OpDesc) : R := do
   let i ← need (ifm d); let o ← need (ofm d)
-  return if i.isUnsigned then (i.dtype == o.dtype || o.dtype == "int32") else true
+  return if i.isUnsigned then (i.dtype == o.dtype || o.dtype == n!"int32") else true
 def input_signed (P : Params) (d : OpDesc) : R := do
-  let i ← need (ifm d); return i.dtype == "int8" || i.dtype == "int16"
+  let i ← need (ifm d); return i.dtype == n!"int8" || i.dtype == n!"int16"
 def input_8bit (P : Params) (d : OpDesc) : R := do
-  let i ← need (ifm d); return i.dtype == "int8" || i.dtype == "uint8"
+  let i ← need (ifm d); return i.dtype == n!"int8" || i.dtype == n!"uint8"
 def argmax_output (P : Params) (d : OpDesc) : R := do
-  let o ← need (ofm d); return o.dtype == "int32" || o.dtype == "int64"
+  let o ← need (ofm d); return o.dtype == n!"int32" || o.dtype == n!"int64"
 
 def matching_either_shapes (P : Params) (d : OpDesc) : R := do
   let i ← need (ifm d); let o ← need (ofm d)
@@ -862,7 +900,7 @@ def fc_output_2d (P : Params) (d : OpDesc) : R := do
   return (Int.fdiv elms n) * n == elms && !(i.rank == 1)
 
 def keep_dim_ifm_ofm (P : Params) (d : OpDesc) : R := do
-  if ← attrBool d "keep_num_dims" false then
+  if ← attrBool d n!"keep_num_dims" false then
     return (← need (ifm d)).rank == (← need (ofm d)).rank
   else return true
 
@@ -907,67 +945,67 @@ end Sem
 -- ------------------------------------------------------------------------------------------------
 -- name → predicate
 
-def supPreds : List (String × (Params → OpDesc → R)) :=
-  [ ("constraint_tens_dtype", Sup.tens_dtype), ("constraint_tens_int32_ops", Sup.tens_int32_ops),
-    ("constraint_tens_dimension", Sup.tens_dimension), ("constraint_tens_quant_per_axis", Sup.tens_quant_per_axis),
-    ("constraint_batch_size", Sup.batch_size), ("constraint_faf", Sup.faf), ("constraint_faf_type", Sup.faf_type),
-    ("constraint_stride_range", Sup.stride_range), ("constraint_dilated_height_range", Sup.dilated_height_range),
-    ("constraint_dilated_product_range", Sup.dilated_product_range), ("constraint_weights_type", Sup.weights_type),
-    ("constraint_weights_const", Sup.weights_const), ("constraint_weights_limit", Sup.weights_limit),
-    ("constraint_bias_shape", Sup.bias_shape), ("constraint_bias_type", Sup.bias_type),
-    ("constraint_bias_40bit", Sup.bias_40bit), ("constraint_depth_multiplier", Sup.depth_multiplier),
-    ("constraint_stride_width_no_upper_limit", Sup.stride_width_no_upper_limit),
-    ("constraint_stride_range_no_padding", Sup.stride_range_no_padding),
-    ("constraint_depthwise_conv_stride", Sup.depthwise_conv_stride), ("constraint_tconv_stride", Sup.tconv_stride),
-    ("constraint_tconv_same", Sup.tconv_same), ("constraint_tconv_valid", Sup.tconv_valid),
-    ("constraint_filter_range", Sup.filter_range), ("constraint_filter_height_range", Sup.filter_height_range),
-    ("constraint_filter_product_range", Sup.filter_product_range),
-    ("constraint_filter_height_range_valid_pad", Sup.filter_height_range_valid_pad),
-    ("constraint_filter_product_range_valid_pad", Sup.filter_product_range_valid_pad),
-    ("constraint_resize", Sup.resize), ("constraint_resize_size", Sup.resize_size),
-    ("constraint_resize_attrs", Sup.resize_attrs),
-    ("constraint_resizebi_half_pixel_centers_dims", Sup.resizebi_half_pixel_centers_dims),
-    ("constraint_pad_shape", Sup.pad_shape), ("constraint_padding_dimensions", Sup.padding_dimensions), ("constraint_pad_type", Sup.pad_type),
-    ("constraint_stridedslice_stride_values", Sup.stridedslice_stride_values),
-    ("constraint_stridedslice_offset_false", Sup.stridedslice_offset_false),
-    ("constraint_inputs_int32", Sup.inputs_int32), ("constraint_output_int32", Sup.output_int32),
-    ("constraint_rsqrt_input_int8", Sup.rsqrt_input_int8),
-    ("constraint_matching_quantization_parameters", Sup.matching_quantization_parameters),
-    ("constraint_broadcast_shapes", Sup.broadcast_shapes),
-    ("constraint_mean_height_width_product", Sup.mean_height_width_product),
-    ("constraint_mean_width", Sup.mean_width), ("constraint_mean_depth", Sup.mean_depth),
-    ("constraint_reshape_shape_constant", Sup.reshape_shape_constant),
-    ("constraint_argmax_axis", Sup.argmax_axis), ("constraint_argmax_depth", Sup.argmax_depth),
-    ("constraint_slice_inputs_const", Sup.slice_inputs_const) ]
+def supPreds : List (Name × (Params → OpDesc → R)) :=
+  [ (n!"constraint_tens_dtype", Sup.tens_dtype), (n!"constraint_tens_int32_ops", Sup.tens_int32_ops),
+    (n!"constraint_tens_dimension", Sup.tens_dimension), (n!"constraint_tens_quant_per_axis", Sup.tens_quant_per_axis),
+    (n!"constraint_batch_size", Sup.batch_size), (n!"constraint_faf", Sup.faf), (n!"constraint_faf_type", Sup.faf_type),
+    (n!"constraint_stride_range", Sup.stride_range), (n!"constraint_dilated_height_range", Sup.dilated_height_range),
+    (n!"constraint_dilated_product_range", Sup.dilated_product_range), (n!"constraint_weights_type", Sup.weights_type),
+    (n!"constraint_weights_const", Sup.weights_const), (n!"constraint_weights_limit", Sup.weights_limit),
+    (n!"constraint_bias_shape", Sup.bias_shape), (n!"constraint_bias_type", Sup.bias_type),
+    (n!"constraint_bias_40bit", Sup.bias_40bit), (n!"constraint_depth_multiplier", Sup.depth_multiplier),
+    (n!"constraint_stride_width_no_upper_limit", Sup.stride_width_no_upper_limit),
+    (n!"constraint_stride_range_no_padding", Sup.stride_range_no_padding),
+    (n!"constraint_depthwise_conv_stride", Sup.depthwise_conv_stride), (n!"constraint_tconv_stride", Sup.tconv_stride),
+    (n!"constraint_tconv_same", Sup.tconv_same), (n!"constraint_tconv_valid", Sup.tconv_valid),
+    (n!"constraint_filter_range", Sup.filter_range), (n!"constraint_filter_height_range", Sup.filter_height_range),
+    (n!"constraint_filter_product_range", Sup.filter_product_range),
+    (n!"constraint_filter_height_range_valid_pad", Sup.filter_height_range_valid_pad),
+    (n!"constraint_filter_product_range_valid_pad", Sup.filter_product_range_valid_pad),
+    (n!"constraint_resize", Sup.resize), (n!"constraint_resize_size", Sup.resize_size),
+    (n!"constraint_resize_attrs", Sup.resize_attrs),
+    (n!"constraint_resizebi_half_pixel_centers_dims", Sup.resizebi_half_pixel_centers_dims),
+    (n!"constraint_pad_shape", Sup.pad_shape), (n!"constraint_padding_dimensions", Sup.padding_dimensions), (n!"constraint_pad_type", Sup.pad_type),
+    (n!"constraint_stridedslice_stride_values", Sup.stridedslice_stride_values),
+    (n!"constraint_stridedslice_offset_false", Sup.stridedslice_offset_false),
+    (n!"constraint_inputs_int32", Sup.inputs_int32), (n!"constraint_output_int32", Sup.output_int32),
+    (n!"constraint_rsqrt_input_int8", Sup.rsqrt_input_int8),
+    (n!"constraint_matching_quantization_parameters", Sup.matching_quantization_parameters),
+    (n!"constraint_broadcast_shapes", Sup.broadcast_shapes),
+    (n!"constraint_mean_height_width_product", Sup.mean_height_width_product),
+    (n!"constraint_mean_width", Sup.mean_width), (n!"constraint_mean_depth", Sup.mean_depth),
+    (n!"constraint_reshape_shape_constant", Sup.reshape_shape_constant),
+    (n!"constraint_argmax_axis", Sup.argmax_axis), (n!"constraint_argmax_depth", Sup.argmax_depth),
+    (n!"constraint_slice_inputs_const", Sup.slice_inputs_const), (n!"constraint_transpose", Sup.transpose) ]
 
-def semPreds : List (String × (Params → OpDesc → R)) :=
-  [ ("constraint_attributes_specified", Sem.attributes_specified), ("constraint_tens_no_dynamic", Sem.tens_no_dynamic),
-    ("constraint_tens_defined_shape", Sem.tens_defined_shape), ("constraint_tens_output_scalar", Sem.tens_output_scalar),
-    ("constraint_tens_input_scalar", Sem.tens_input_scalar), ("constraint_tens_shape_size", Sem.tens_shape_size),
-    ("constraint_tens_quant_none_check", Sem.tens_quant_none_check), ("constraint_tens_quant_scale", Sem.tens_quant_scale),
-    ("constraint_quant_scale_inf", Sem.quant_scale_inf), ("constraint_none_const_tensors", Sem.none_const_tensors),
-    ("constraint_stride_type", Sem.stride_type), ("constraint_dilation_type", Sem.dilation_type),
-    ("constraint_filter_type", Sem.filter_type), ("constraint_conv_groups_ifm_depth", Sem.conv_groups_ifm_depth),
-    ("constraint_conv_groups_num_filters", Sem.conv_groups_num_filters),
-    ("constraint_matching_in_out_types", Sem.matching_in_out_types), ("constraint_beta_value_range", Sem.beta_value_range),
-    ("constraint_matching_shapes", Sem.matching_shapes), ("constraint_split_axis", Sem.split_axis),
-    ("constraint_split_num_splits", Sem.split_num_splits), ("constraint_splitv_inferred", Sem.splitv_inferred),
-    ("constraint_axis_exists", Sem.axis_exists), ("constraint_axis_valid", Sem.axis_valid),
-    ("constraint_matching_dimensionality", Sem.matching_dimensionality), ("constraint_valid_dimensions", Sem.valid_dimensions),
-    ("constraint_valid_dimensions_axis", Sem.valid_dimensions_axis),
-    ("constraint_stridedslice_input_count", Sem.stridedslice_input_count), ("constraint_pad_input_count", Sem.pad_input_count),
-    ("constraint_pad_constant", Sem.pad_constant), ("constraint_pad_output_shape", Sem.pad_output_shape),
-    ("constraint_stridedslice_inputs_const", Sem.stridedslice_inputs_const), ("constraint_ellipsis_mask", Sem.ellipsis_mask),
-    ("constraint_axis_masks", Sem.axis_masks), ("constraint_slice_ranges", Sem.slice_ranges),
-    ("constraint_matching_inputs_types", Sem.matching_inputs_types), ("constraint_matching_signed", Sem.matching_signed),
-    ("constraint_unsigned_valid", Sem.unsigned_valid), ("constraint_input_signed", Sem.input_signed),
-    ("constraint_input_8bit", Sem.input_8bit), ("constraint_argmax_output", Sem.argmax_output),
-    ("constraint_matching_either_shapes", Sem.matching_either_shapes), ("constraint_fc_output_2d", Sem.fc_output_2d),
-    ("constraint_keep_dim_ifm_ofm", Sem.keep_dim_ifm_ofm), ("constraint_mean_input_dims", Sem.mean_input_dims),
-    ("constraint_mean_axis", Sem.mean_axis), ("constraint_matching_in_out_quant", Sem.matching_in_out_quant),
-    ("constraint_matching_in_out_elements", Sem.matching_in_out_elements),
-    ("constraint_transpose_permutation_size", Sem.transpose_permutation_size),
-    ("constraint_transpose_permutation_values", Sem.transpose_permutation_values) ]
+def semPreds : List (Name × (Params → OpDesc → R)) :=
+  [ (n!"constraint_attributes_specified", Sem.attributes_specified), (n!"constraint_tens_no_dynamic", Sem.tens_no_dynamic),
+    (n!"constraint_tens_defined_shape", Sem.tens_defined_shape), (n!"constraint_tens_output_scalar", Sem.tens_output_scalar),
+    (n!"constraint_tens_input_scalar", Sem.tens_input_scalar), (n!"constraint_tens_shape_size", Sem.tens_shape_size),
+    (n!"constraint_tens_quant_none_check", Sem.tens_quant_none_check), (n!"constraint_tens_quant_scale", Sem.tens_quant_scale),
+    (n!"constraint_quant_scale_inf", Sem.quant_scale_inf), (n!"constraint_none_const_tensors", Sem.none_const_tensors),
+    (n!"constraint_stride_type", Sem.stride_type), (n!"constraint_dilation_type", Sem.dilation_type),
+    (n!"constraint_filter_type", Sem.filter_type), (n!"constraint_conv_groups_ifm_depth", Sem.conv_groups_ifm_depth),
+    (n!"constraint_conv_groups_num_filters", Sem.conv_groups_num_filters),
+    (n!"constraint_matching_in_out_types", Sem.matching_in_out_types), (n!"constraint_beta_value_range", Sem.beta_value_range),
+    (n!"constraint_matching_shapes", Sem.matching_shapes), (n!"constraint_split_axis", Sem.split_axis),
+    (n!"constraint_split_num_splits", Sem.split_num_splits), (n!"constraint_splitv_inferred", Sem.splitv_inferred),
+    (n!"constraint_axis_exists", Sem.axis_exists), (n!"constraint_axis_valid", Sem.axis_valid),
+    (n!"constraint_matching_dimensionality", Sem.matching_dimensionality), (n!"constraint_valid_dimensions", Sem.valid_dimensions),
+    (n!"constraint_valid_dimensions_axis", Sem.valid_dimensions_axis),
+    (n!"constraint_stridedslice_input_count", Sem.stridedslice_input_count), (n!"constraint_pad_input_count", Sem.pad_input_count),
+    (n!"constraint_pad_constant", Sem.pad_constant), (n!"constraint_pad_output_shape", Sem.pad_output_shape),
+    (n!"constraint_stridedslice_inputs_const", Sem.stridedslice_inputs_const), (n!"constraint_ellipsis_mask", Sem.ellipsis_mask),
+    (n!"constraint_axis_masks", Sem.axis_masks), (n!"constraint_slice_ranges", Sem.slice_ranges),
+    (n!"constraint_matching_inputs_types", Sem.matching_inputs_types), (n!"constraint_matching_signed", Sem.matching_signed),
+    (n!"constraint_unsigned_valid", Sem.unsigned_valid), (n!"constraint_input_signed", Sem.input_signed),
+    (n!"constraint_input_8bit", Sem.input_8bit), (n!"constraint_argmax_output", Sem.argmax_output),
+    (n!"constraint_matching_either_shapes", Sem.matching_either_shapes), (n!"constraint_fc_output_2d", Sem.fc_output_2d),
+    (n!"constraint_keep_dim_ifm_ofm", Sem.keep_dim_ifm_ofm), (n!"constraint_mean_input_dims", Sem.mean_input_dims),
+    (n!"constraint_mean_axis", Sem.mean_axis), (n!"constraint_matching_in_out_quant", Sem.matching_in_out_quant),
+    (n!"constraint_matching_in_out_elements", Sem.matching_in_out_elements),
+    (n!"constraint_transpose_permutation_size", Sem.transpose_permutation_size),
+    (n!"constraint_transpose_permutation_values", Sem.transpose_permutation_values) ]
 
 
 def liveParams : Params where
@@ -983,14 +1021,14 @@ def liveParams : Params where
   meanInt8 := meanKernelProductInt8
   meanUint8 := meanKernelProductUint8
   meanInt16 := meanKernelProductInt16
-  opDtypes := dtypeSet "supported_op_dtypes"
-  fafDtypes := dtypeSet "supported_faf_dtypes"
-  biasDtypes := dtypeSet "supported_bias_dtypes"
-  padDtypes := dtypeSet "supported_pad_dtypes"
-  int32Ops := opSet supOpSets "supported_int32_tensor_ops"
-  perAxisOps := opSet supOpSets "per_axis_quant_ops"
-  fafOps := opSet supOpSets "supported_fused_activations"
-  shapelessOps := opSet semOpSets "shapeless_input_ops"
+  opDtypes := dtypeSet n!"supported_op_dtypes"
+  fafDtypes := dtypeSet n!"supported_faf_dtypes"
+  biasDtypes := dtypeSet n!"supported_bias_dtypes"
+  padDtypes := dtypeSet n!"supported_pad_dtypes"
+  int32Ops := opSet supOpSets n!"supported_int32_tensor_ops"
+  perAxisOps := opSet supOpSets n!"per_axis_quant_ops"
+  fafOps := opSet supOpSets n!"supported_fused_activations"
+  shapelessOps := opSet semOpSets n!"shapeless_input_ops"
   dwStride := (1, 3)
   convStrideH := (1, 3)
   convStrideW := (1, 3)
@@ -1001,32 +1039,32 @@ def liveParams : Params where
   maxRank := 4
 
 /-- evaluate a constraint by function name; a name without a model is an error, never a default -/
-def evalIn (tbl : List (String × (Params → OpDesc → R))) (P : Params) (name : String) (d : OpDesc) : R :=
+def evalIn (tbl : List (Name × (Params → OpDesc → R))) (P : Params) (name : Name) (d : OpDesc) : R :=
   match tbl.find? (·.1 == name) with
   | some (_, p) => p P d
-  | none => .error ("unmodelled:" ++ name)
+  | none => .error ("unmodelled:" ++ ofName name)
 
 -- ------------------------------------------------------------------------------------------------
 -- the lists that apply to an operator type
 
-def lookup (tbl : List (String × List String)) (k : String) : List String :=
+def lookup (tbl : List (Name × List Name)) (k : Name) : List Name :=
   ((tbl.find? (·.1 == k)).map (·.2)).getD []
 
 /-- `[c for c in generic_constraints if c not in exceptions[op.type]] + specific_constraints[op.type]` -/
-def listedWith (generic : List String) (exceptions specific : List (String × List String)) (ty : String) : List String :=
+def listedWith (generic : List Name) (exceptions specific : List (Name × List Name)) (ty : Name) : List Name :=
   generic.filter (fun c => !(lookup exceptions ty).contains c) ++ lookup specific ty
 
-def supListed (ty : String) : List String := listedWith supGeneric supExceptions supSpecific ty
-def semListed (ty : String) : List String := listedWith semGeneric semExclude semSpecific ty
+def supListed (ty : Name) : List Name := listedWith supGeneric supExceptions supSpecific ty
+def semListed (ty : Name) : List Name := listedWith semGeneric semExclude semSpecific ty
 
 inductive Verdict where
   | npu                                   -- every listed constraint holds
-  | cpu (failed : String)                 -- first listed constraint that does not hold ("" = not a supported type)
-  | raised (at_ : String) (what : String) -- the constraint function raises / is outside the model
+  | cpu (failed : Name)                 -- first listed constraint that does not hold ("" = not a supported type)
+  | raised (at_ : Name) (what : String) -- the constraint function raises / is outside the model
 deriving Repr, DecidableEq, Inhabited
 
 /-- the walk both checkers perform: first constraint that is false (or raises) decides -/
-def walk (tbl : List (String × (Params → OpDesc → R))) (P : Params) (d : OpDesc) : List String → Verdict
+def walk (tbl : List (Name × (Params → OpDesc → R))) (P : Params) (d : OpDesc) : List Name → Verdict
   | [] => .npu
   | c :: cs =>
     match evalIn tbl P c d with
@@ -1034,11 +1072,11 @@ def walk (tbl : List (String × (Params → OpDesc → R))) (P : Params) (d : Op
     | .ok false => .cpu c
     | .error e => .raised c e
 
-def irOnly (ty : String) : Bool := ty == "Placeholder" || ty == "SubgraphInput" || ty == "Const"
+def irOnly (ty : Name) : Bool := ty == n!"Placeholder" || ty == n!"SubgraphInput" || ty == n!"Const"
 
 /-- `TFLiteSupportedOperators.is_operator_supported` -/
 def isOperatorSupported (d : OpDesc) : Verdict :=
-  if !(opSet supOpSets "supported_operators").contains d.type then .cpu ""
+  if !(opSet supOpSets n!"supported_operators").contains d.type then .cpu []
   else walk supPreds liveParams d (supListed d.type)
 
 /-- `TFLiteSemantic.is_operator_semantic_valid` -/
